@@ -37,6 +37,8 @@ type rcase struct {
 	Sep        string            `json:"sep"`
 	ErrPfx     string            `json:"err_prefix"`
 	ReuseSizer bool              `json:"reuse_sizer"`
+	// Resized: the page was first given a sizer with a larger limit, which the configured one replaces
+	Resized bool `json:"resized"`
 }
 
 type rres struct{ c *rcase }
@@ -190,6 +192,9 @@ func (r *renderer) render(idx int) rpage {
 				r.sizer = render.NewSizer(r.size)
 			} else {
 				r.sizer.Reset()
+			}
+			if c.Resized {
+				pg = pg.WithSizer(render.NewSizer(r.size*2 + 64))
 			}
 			pg = pg.WithSizer(r.sizer)
 		}
@@ -354,6 +359,7 @@ func genRCase(r *vk.RNG, wantSink int) *rcase {
 		}
 	}
 	c.ReuseSizer = r.Chance(1, 2)
+	c.Resized = r.Chance(1, 4)
 	return c
 }
 
